@@ -587,6 +587,51 @@ pub fn run(tier: &str, root: &Path) -> Value {
         seen_stage_cfgs += c;
         stage_desc.push(json!({"family": "one entry shared by two or all targets (as uses or as ignores) x at most one entry of the other kind", "configurations": c, "complete": true}));
     }
+    // pairs of entries of the same kind in ancestor relation (one equal to or inside the other),
+    // owned by the same target or by different targets
+    {
+        let tsets = subsets(&D, 1, if tier == "thorough" { 3 } else { 2 });
+        let count = std::sync::atomic::AtomicU64::new(0);
+        let mut pairs: Vec<(&str, &str)> = vec![];
+        for e1 in &entries {
+            for e2 in &entries {
+                if e1 != e2 && inside(e2, e1) {
+                    pairs.push((e1, e2));
+                }
+            }
+        }
+        tsets.par_iter().for_each(|tset| {
+            let nt = tset.len();
+            for (outer, inner) in &pairs {
+                for o1 in 0..nt {
+                    for o2 in 0..nt {
+                        for as_uses in [false, true] {
+                            let mut base: Vec<Tgt> = tset.iter().map(|p| Tgt::new(p)).collect();
+                            if as_uses {
+                                base[o1].uses.push(outer.to_string());
+                                base[o2].uses.push(inner.to_string());
+                            } else {
+                                base[o1].ignores.push(outer.to_string());
+                                base[o2].ignores.push(inner.to_string());
+                            }
+                            let cfg = Cfg { targets: base };
+                            count.fetch_add(1, std::sync::atomic::Ordering::Relaxed);
+                            rep.eval(chs.len() as u64 + 4);
+                            if feature_nontrivial(&cfg, &chs) {
+                                rep.nontrivial(1);
+                            }
+                            for (sig, detail, extra) in check_cfg(&cfg, root, &chs, true) {
+                                rep.violation(&sig, 9_500_000 + (nt as u64) * 100_000, json!({"config": cfg.to_value(), "input": extra}), detail);
+                            }
+                        }
+                    }
+                }
+            }
+        });
+        let c = count.load(std::sync::atomic::Ordering::Relaxed);
+        seen_stage_cfgs += c;
+        stage_desc.push(json!({"family": "two uses (or two ignores) entries, one inside the other, on the same or on different targets", "configurations": c, "complete": true}));
+    }
     seen_stage_cfgs += run_unicode(&rep, root, &mut stage_desc);
     seen_stage_cfgs += run_missing_on_disk(&rep, root, &mut stage_desc);
     // batching sweep on a fixed feature set of configurations
